@@ -32,7 +32,7 @@ SCOPE = {
              "coreLang 1.0.0; enumerated: every association x every pair of concrete (sub)types x both XML "
              "orientations as a one-link model (+ self-link where possible); entry-point shapes (1-3 steps on 1-2 "
              "assets, 1-2 attackers); id patterns (3 of {-7,0,1,13,2^62+} in every order); defense assignments of one "
-             "asset (4^3); + 4000 seeded random models of <=4 (mini) / <=3 (coreLang) assets, <=3 links, <=2 attackers, "
+             "asset (4^3); + 6000 seeded random models of <=4 (mini) / <=3 (coreLang) assets, <=3 links, <=2 attackers, "
              "each in json/yml, nested/flat/scalar 0.0.39 associations, random XML order and orientation",
     "thorough": "same enumerated part; 80000 random models of <=5 assets, <=5 links, <=3 attackers",
 }
@@ -52,6 +52,8 @@ BUDGET_S = {"quick": 100, "thorough": 1500}
 CHUNK = 100
 
 BIG = 6772009123833071681
+# directory creation on the disk-backed /tmp of the sandbox costs ~40 ms; use memory-backed storage when present
+_TMPBASE = "/dev/shm" if os.path.isdir("/dev/shm") and os.access("/dev/shm", os.W_OK) else None
 
 
 def _opts(rnd):
@@ -120,7 +122,7 @@ def cases(tier, seed):
             o["explicit_defaults"] = expl
             yield {"lang": "mini", "name": "e4", "assets": [["A1", "a", 1, defs]], "links": [], "attackers": [], "opts": o}
     # random
-    n_rand = 4000 if tier == "quick" else 80000
+    n_rand = 6000 if tier == "quick" else 80000
     big = tier != "quick"
     for j in range(n_rand):
         lang = "mini" if j % 8 < 5 else "core"
@@ -238,7 +240,7 @@ def run_case(recipe):
     o = recipe["opts"]
     ref = L.reference_view(recipe)
     r = CaseResult()
-    tmp = tempfile.mkdtemp(prefix="c18-")
+    tmp = tempfile.mkdtemp(prefix="c18-", dir=_TMPBASE)
     try:
         pn = os.path.join(tmp, "native." + o["native_ext"])
         pl = os.path.join(tmp, "legacy." + o["legacy_ext"])
